@@ -140,9 +140,9 @@ def producer_scenarios(rng, n):
                     open(fp, "wb").write(emit.file_bytes(content))
             os.makedirs(os.path.join(d, "a"), exist_ok=True); os.makedirs(os.path.join(d, "b"), exist_ok=True)
             if prod == "git":
-                p = subprocess.run(["git", "diff", "--no-index", "--no-color", "a", "b"], cwd=d, capture_output=True, env={"HOME": d, "PATH": "/usr/bin:/bin", "GIT_CONFIG_NOSYSTEM": "1"})
+                p = subprocess.run(["git", "diff", "--no-index", "--no-color", "--text", "a", "b"], cwd=d, capture_output=True, env={"HOME": d, "PATH": "/usr/bin:/bin", "GIT_CONFIG_NOSYSTEM": "1"})
             else:
-                p = subprocess.run(prod.split() + ["a", "b"], cwd=d, capture_output=True)
+                p = subprocess.run(prod.split() + ["-a", "a", "b"], cwd=d, capture_output=True)   # -a: bytes such as NUL are text
             text = p.stdout
             if not text.strip():
                 continue
